@@ -259,7 +259,8 @@ class PageBreakCalculator(BaseModel):
         # 1. Calculate data rows
         # Use existing calculation logic but handle removed columns manually
         row_metadata_list = []
-        total_width = sum(col_widths)
+        # col_widths are cumulative right boundaries: the table width is the last one
+        total_width = col_widths[-1] if col_widths else 0
 
         # Pre-calculate group changes
         page_by_changes = [True] * df.height
